@@ -187,6 +187,9 @@ var seedExpectations = []seedExpect{
 	{"inline-local-noreinit", "C13", "inline.localreinit", "inlineOneCall"},
 	{"dce-no-remark", "C13", "unmark.remarked", "dce.Run"},
 	{"unknown-name-default", "C11", "name.silentdefault", "Lowerer.builtin"},
+	{"glsl-all-entry-points", "C05", "epselect.agree", "Writer.writeEntryPoints:filter"},
+	{"glsl-atomic-sub-glue", "C05", "parens.prefixglue", "Writer.writeAtomic:format(value)"},
+	{"glsl-all-entry-points", "C17", "epselect.agree", "Writer.scanTextureSamplerPairs:filter"},
 	{"unknown-name-default", "C17", "name.silentdefault", "Lowerer.addressSpace"},
 	{"mem2reg-revoke-in-walk", "C13", "commit.revoke", "walkBlock"},
 	{"mem2reg-loop-unaware", "C13", "promote.loopaware", "promoteBlocks"},
